@@ -19,7 +19,7 @@ RULE_TEXT = ('runs = a sweep over every place (24) x every driver kind (6) with 
              'parts from 5 source kinds, optional cd before the use, optional setup stdin for the ATC. Non-trivial = the '
              'process under observation was spawned and compared with the model; distinct = (place, driver kind, chain '
              'depth, multiset of argument kinds, stdin source kinds, exit-code class).')
-REACH_PROBES = ['place_act_command_line', 'place_act_file_interpreter', 'place_act_source_interpreter', 'place_act_null',
+REACH_PROBES = ['second_use_of_program_symbol', 'setup_stdin_from_program', 'place_act_command_line', 'place_act_file_interpreter', 'place_act_source_interpreter', 'place_act_null',
                 'place_run', 'place_file_stdout_from', 'place_exit_code_from', 'place_stdout_from', 'place_transformer',
                 'place_matcher', 'driver_sys', 'driver_python', 'driver_exe', 'driver_exe_rel', 'driver_shell',
                 'driver_sym', 'chain_depth_2', 'chain_depth_3', 'stdin_accumulated', 'stdin_from_program',
@@ -147,7 +147,8 @@ def _program_of_kind(g, k, depth, defs, procs, counter, allow_stdin, allow_shell
         sm = sub['model']
         a = args if args is not None else gen_args(g, simple=sm['shell'] or ARG_STYLE[0])
         m = {'shell': sm['shell'], 'head': sm['head'], 'line': sm.get('line'), 'args': sm['args'] + a,
-             'stdin': sm['stdin'] + ([stdin] if stdin else []), 'driver': sm['driver'], 'depth': sm['depth'] + 1}
+             'stdin': sm['stdin'] + ([stdin] if stdin else []), 'driver': sm['driver'], 'depth': sm['depth'] + 1,
+             'use_symbol': sname, 'use_n_args': len(a), 'use_has_stdin': bool(stdin)}
         first = '@ %s %s' % (sname, ' '.join(x['syn'] for x in a))
     else:
         a = args if args is not None else gen_args(g, simple=(k == 'shell') or ARG_STYLE[0])
@@ -267,12 +268,18 @@ def build(seed, tier, g, place, driver, exit_code=None, sweep=False, capture=Fal
     procs.setdefault('atc', {'exit': 0})
     setup_stdin = None
     if pkind == 'act_command_line' and g.random() < 0.4:
-        setup_stdin = g.choice(['SETUP-STDIN', 'line1\nline2\n'])
+        setup_stdin = g.choice(['SETUP-STDIN', 'line1\nline2\n', '@PROG'])
+        if setup_stdin == '@PROG':
+            procs['ssp'] = {'exit': 0, 'stdout': 'from-setup-stdin-program\n'}
     cd = g.random() < 0.3 and pkind != 'act_null'
     # (a -transformed-by line after a -stdin line would bind to the stdin's TEXT-SOURCE: only without stdin here)
     transform = g.random() < 0.3 and pkind in ('file_stdout_from', 'stdout_from', 'act_command_line') and \
         len(prog['lines']) == 1
-    plan = {'format': 1, 'property': PROPERTY, 'engine': 'c10', 'run_seed': seed, 'tier': tier,
+    m_ = prog['model']
+    # the same program symbol used a second time, later, with other arguments: nothing of the first use may stick
+    second_use = bool(m_ and m_.get('use_symbol') and not m_['shell'] and ph != 'cleanup' and g.random() < 0.5 and
+                      pkind not in ('act_file_interpreter', 'act_source_interpreter'))
+    plan = {'format': 1, 'property': PROPERTY, 'engine': 'c10', 'run_seed': seed, 'tier': tier, 'second_use': second_use,
             'knobs': {'mem_buff_size': g.choice([1, 5, 8192])}, 'entry': 'cli', 'kind': 'denotation',
             'place': pkind, 'phase': ph, 'defs': defs, 'prog': prog, 'procs': procs, 'setup_stdin': setup_stdin,
             'cd': cd, 'transform': transform, 'capture': capture, 'sweep': sweep,
@@ -299,7 +306,9 @@ def render(plan):
     setup.append('file g.txt = "g-contents"')
     for d in plan['defs']:
         setup.extend(d)
-    if plan['setup_stdin'] is not None:
+    if plan['setup_stdin'] == '@PROG':
+        setup.append('stdin = -stdout-from % ssp')
+    elif plan['setup_stdin'] is not None:
         if '\n' in plan['setup_stdin']:
             setup.append('stdin = <<EOF\n%sEOF' % plan['setup_stdin'])
         else:
@@ -380,6 +389,9 @@ def render(plan):
             target.append(cd_line)
         target.append('stdout equals -stdout-from ' + indented[0])
         target.extend(indented[1:])
+    if plan.get('second_use'):
+        lines['cleanup'].append('cd -rel-act .')
+        lines['cleanup'].append('run -ignore-exit-code @ %s second-use' % prog['model']['use_symbol'])
     out = []
     if lines['conf']:
         out.append('[conf]')
@@ -466,7 +478,7 @@ def expected_spawn(plan):
     pk = plan['place']
     stdin = ''.join(p['val'] for p in m['stdin'])
     if pk == 'act_command_line' and plan['setup_stdin'] is not None:
-        stdin += plan['setup_stdin']
+        stdin += 'from-setup-stdin-program\n' if plan['setup_stdin'] == '@PROG' else plan['setup_stdin']
     if pk == 'transformer':
         stdin = 'input text'
     if pk == 'matcher':
@@ -527,12 +539,26 @@ def oracle(plan, hist):
     exp = expected_spawn(plan)
     once = pk in ('run', 'run_ignore', 'act_command_line', 'act_file_interpreter', 'act_source_interpreter',
                   'exit_code_from')
-    if once and len(target) != 1:
+    if once and len(target) != (2 if plan.get('second_use') else 1):
         bad('executed_once_and_only_once', 1, len(target))
     if not target:
         bad('process_is_started', exp, {'spawns': [s['raw_tag'] for s in hist['spawns']], 'verdict': ident,
                                         'stderr': res['stderr'][:300]})
         return V
+    if plan.get('second_use'):
+        m = plan['prog']['model']
+        second = target[-1] if len(target) >= 2 else None
+        target = target[:-1] if second is not None else target
+        n_use = m['use_n_args']
+        base_args = [v for a in (m['args'][:len(m['args']) - n_use] if n_use else m['args']) for v in a['val']]
+        base_stdin = ''.join(p['val'] for p in (m['stdin'][:-1] if m['use_has_stdin'] else m['stdin']))
+        want2 = {'shell': False, 'args': list(m['head']) + base_args + ['second-use'], 'stdin': base_stdin, 'cwd': '$SBX/act'}
+        if second is None:
+            bad('second_use_of_program_symbol.started', want2, None)
+        else:
+            got2 = {k: second[k] for k in ('shell', 'args', 'stdin', 'cwd')}
+            if got2 != want2:
+                bad('second_use_of_program_symbol', want2, got2)
     for s in target:
         got = {k: s[k] for k in ('shell', 'args', 'stdin', 'cwd')}
         want = dict(exp)
@@ -614,6 +640,10 @@ def _probes(plan, hist):
                 pr['text_until_eol'] = 1
         if plan['setup_stdin'] is not None:
             pr['setup_stdin_for_atc'] = 1
+        if plan['setup_stdin'] == '@PROG':
+            pr['setup_stdin_from_program'] = 1
+        if plan.get('second_use'):
+            pr['second_use_of_program_symbol'] = 1
         if plan['cd']:
             pr['cd_before_use'] = 1
         if plan['procs']['T']['exit'] == 255 and pk == 'act_command_line':
